@@ -80,6 +80,8 @@ def impl_receiver(chunks):
             p.dataReceived(bytes(c))
         except BufferUnderflowError:
             end = "raised"
+        except Exception:
+            end = "raised-other"
         pk = [e[1] for e in log if e[0] == "packet"]
         if any(e[0] == "lose" for e in log):
             end = "limit" if end == "more" else "raised+lose"
@@ -146,6 +148,8 @@ def impl_bootstrap(events):
             log.append(("raised", 1))
         except AttributeError:
             log.append(("raised", 2))
+        except Exception:          # anything else (AlreadyCalledError, KeyError ..) is an observable no legal behaviour has
+            log.append(("raised", 99))
         outs = []
         for e in log:
             if e[0] == "write":
@@ -297,6 +301,8 @@ def gen_bootstrap_case(rnd):
 def monitor_receiver(kind, chunks, frames, info, calls):
     """C06_reassembly / C06_length_limit restated over what the real receiver did"""
     bad = []
+    if any(e not in ("more", "limit", "raised") for _, e in calls):
+        bad.append(("C06_reassembly", "dataReceived raised an exception other than the short-frame BufferUnderflowError, or raised and lost the connection"))
     delivered = [p for pk, _ in calls for p in pk]
     if kind == "good":
         if delivered != frames:
@@ -328,6 +334,8 @@ def monitor_bootstrap(events, per_event, reqs):
     lost = False
     for ev, outs in zip(events, per_event):
         for o in outs:
+            if o == ("raised", 99):
+                bad.append(("C06_bootstrap_pairing", "event %r raised an exception no legal behaviour includes (AlreadyCalledError, KeyError ..)" % (ev[0],)))
             if o[0] == "def":
                 h = o[1]
                 if h in fired:
